@@ -3,7 +3,7 @@
 import json, glob, re, os
 strengthened = {
  "C05-1": "missed at first: generators never nested link-in-image-in-link; fragments for nested bracket shapes added (G2/G3)",
- "C10-1": "not visible to C10 by design (which '<' a filter escapes is C17's clause); missed by C17 at first: no upper-case tag names of equal length; shared HTML soup generator with upper-case names added",
+ "C10-1": "missed at first: no upper-case tag names of equal length were generated and C10 accepted either spelling of a '<' inside raw HTML under a filter; shared HTML soup generator with upper-case names added and C10 now predicts the filtered bytes exactly (FilterRawRef)",
  "C12-2": "missed at first: every definition was its own root block; definitions at different depths of one root block added",
  "C14-1": "missed at first: C14 only went through Parse; streaming variant with one-byte reads added",
  "C15-1": "missed at first: rule alphabets had no white space other than space/tab; form feed, NBSP added",
